@@ -307,7 +307,7 @@ def master_main(a):
     mod = load_module(prop)
     P = mod.PARAMS[tier]
     nshards = 1 if a.only is not None else int(os.environ.get('PV_SHARDS', P.get('shards', 8)))
-    timeout = P.get('timeout', 600 if tier == 'quick' else 2700)
+    timeout = int(os.environ.get('PV_TIMEOUT') or P.get('timeout', 600 if tier == 'quick' else 2700))
     scratch = os.path.join(VERIF, '.scratch', f'{prop}-{os.getpid()}')
     os.makedirs(scratch, exist_ok=True)
     procs = []
